@@ -1040,6 +1040,28 @@ def run(prop, tier, seed, repo, known_p):
                 samples=samples, rule="; ".join(f"{r.name}: {r.bound}" for r in reps), exhaustive=False)
 
 
+def _query_with_timeout(repo, q, timeout_s):
+    """-> answer dict, or None when the real library did not answer in time (the process is killed)"""
+    import threading
+    rac = Rac(repo)
+    box = {}
+
+    def work():
+        try:
+            box["a"] = rac.query(q)
+        except Exception as e:
+            box["a"] = {"panic": f"harness died: {e}"}
+    t = threading.Thread(target=work, daemon=True)
+    t.start()
+    t.join(timeout_s)
+    if t.is_alive():
+        rac.p.kill()
+        t.join(5)
+        return None
+    rac.close()
+    return box.get("a")
+
+
 def replay_known(known_list, repo):
     """-> {finding_id: True if the recorded witness still misbehaves on the real code}"""
     out = {}
@@ -1052,7 +1074,9 @@ def replay_known(known_list, repo):
     try:
         for k in known_list:
             w = k.get("witness", {})
-            if "query" in w:
+            if "timeout_s" in w:
+                out[k["finding_id"]] = _query_with_timeout(repo, w["query"], w["timeout_s"]) is None
+            elif "query" in w:
                 st = single_value(rac.query(w["query"]))
                 got = str(st[1]) if st[0] in ("ok", "err") else st[0]
                 if st[0] == "ok" and st[2].get("unit_str"):
